@@ -94,11 +94,14 @@ def memo_facts(tree, facts):
             if isinstance(n, ast.Call) and isinstance(n.func, ast.Attribute) and n.func.attr == "cache_clear" \
                     and isinstance(n.func.value, ast.Attribute):
                 facts["clears"].add(fn.name + ">" + n.func.value.attr)
+            if isinstance(n, ast.Call) and isinstance(n.func, ast.Attribute) and isinstance(n.func.value, ast.Name) \
+                    and n.func.value.id in CTX_NAMES:
+                facts["calls"].add(fn.name + ">" + n.func.attr)
 
 
 def generate() -> str:
     slots = None
-    facts = {"memo": set(), "writers": set(), "clears": set()}
+    facts = {"memo": set(), "writers": set(), "clears": set(), "calls": set()}
     start_page = set()
     prologue = set()
     processing = {}
@@ -157,6 +160,8 @@ def generate() -> str:
            "Definition memoised_functions : list string := %s." % q(facts["memo"]),
            "Definition store_writers : list string := %s." % q(facts["writers"]),
            "Definition cache_clears : list string := %s." % q(facts["clears"]),
+           "(* 'f>w' for every function f that calls the store writer w on the context *)",
+           "Definition writer_calls : list string := %s." % q(c for c in facts["calls"] if c.split(">")[1] in facts["writers"]),
            "(* where each field is written:"]
     for f in sorted(written):
         out.append("   %s: %s" % (f, ", ".join(sorted(k for k, v in processing.items() if f in v))))
@@ -170,7 +175,8 @@ def fallback(err):
             "Definition parse_prologue_resets : list string := [].\n"
             "Definition written_during_processing : list string := [\"TRANSLATOR-FAILED\"].\n"
             "Definition memoised_functions : list string := [\"TRANSLATOR-FAILED\"].\n"
-            "Definition store_writers : list string := [].\nDefinition cache_clears : list string := [].\n") % err.replace("*)", "* )")
+            "Definition store_writers : list string := [].\nDefinition cache_clears : list string := [].\n"
+            "Definition writer_calls : list string := [].\n") % err.replace("*)", "* )")
 
 
 if __name__ == "__main__":
